@@ -166,6 +166,9 @@ def one_scenario(binp, op, hist, seed, big, scratch_root, max_points):
                 res["sigs"].add(f"{op}|{hist}|{'big' if big else 'small'}|{cs}|{pclass}")
                 count(f"crash_points_{op}", 1)
                 count(f"cut_{cs}", 1)
+                st = verdict.get("stats") or {}
+                count("restart_consolidations_checked", st.get("restart_consolidations_checked", 0))
+                count("pre_readable_cache_chunks_kept", st.get("pre_readable_chunks_kept", 0))
                 if len(res["samples"]) < 2:
                     s = dict(witness)
                     s["checker_stats"] = verdict.get("stats")
@@ -184,7 +187,7 @@ def run(pid, tier, seed, conf):
     max_points = conf["max_points"][t]
     scenarios = []
     for op in OPS:
-        for hist in HISTS:
+        for hist in HISTS + (["subranges"] if op == "cacheput" else []):
             if op == "cacheinit" and hist == "empty":
                 continue
             for i in range(n_seeds):
